@@ -173,6 +173,22 @@ def check_mpl_1d(case, ctx: Ctx):
         ctx.label("has_empty_bin")
 
 
+def _make_empty_bin(spec):
+    """Log colour scales have to cope with an empty bin next to filled ones: make sure there is one."""
+    f = spec["freq"]
+    row = f
+    while isinstance(row[0], list):
+        row = row[0]
+    rest = [x for x in hgen.flat(f)][1:]
+    if any(x > 0 for x in rest):
+        row[0] = 0
+        if spec.get("err2") is not None:
+            e = spec["err2"]
+            while isinstance(e[0], list):
+                e = e[0]
+            e[0] = 0
+
+
 @st.composite
 def mpl_1d_cases(draw, tier="quick"):
     kind = draw(st.sampled_from(["bar", "bar", "step", "line", "scatter", "fill"]))
@@ -209,6 +225,7 @@ def mpl_1d_cases(draw, tier="quick"):
         opts["cmap"] = draw(st.sampled_from(["Greys", "viridis"]))
         if draw(st.booleans()):
             opts["cmap_normalize"] = "log"
+            _make_empty_bin(spec)
     return {"kind": kind, "spec": spec, "opts": opts}
 
 
@@ -356,6 +373,7 @@ def mpl_2d_cases(draw, tier="quick"):
         opts["show_colorbar"] = draw(st.booleans())
     if kind == "image" and draw(st.booleans()) and any(x > 0 for x in hgen.flat(spec["freq"])):
         opts["cmap_normalize"] = "log"  # (colours are not checked; the image array and the histogram are)
+        _make_empty_bin(spec)
     return {"kind": kind, "spec": spec, "opts": opts, "negative_cell": draw(st.one_of(st.none(), st.none(), st.lists(st.integers(0, 5), min_size=2, max_size=2)))}
 
 
